@@ -16,7 +16,8 @@ Record wcase := mkcase {
   c_slots : Z;
   c_calls : list xcall;
   c_new_ok : bool;           (* constructor returned a wheel *)
-  c_obs : list obs
+  c_obs : list obs;
+  c_hung : bool              (* the driver gave up waiting (wheel stuck / callback never finished): observations incomplete *)
 }.
 
 Definition pair_eqb (a b : nat * nat) : bool := (fst a =? fst b) && (snd a =? snd b).
@@ -55,7 +56,7 @@ Fixpoint model_run (w : wheel) (cs : list xcall) (os : list obs) : bool :=
 Definition wheel_model_ok (c : wcase) : bool :=
   match new_wheel (c_interval c) (c_slots c) true with
   | None => negb (c_new_ok c) && nil_b (c_obs c)
-  | Some s => c_new_ok c && model_run (mkW s false) (c_calls c) (c_obs c)
+  | Some s => negb (c_hung c) && c_new_ok c && model_run (mkW s false) (c_calls c) (c_obs c)
   end.
 
 (* ---- the property, checked on the observations against the abstract timer only ---- *)
@@ -110,7 +111,7 @@ Fixpoint spec_run (I : positive) (sp : sst) (closed drained : bool) (cs : list x
 
 Definition wheel_spec_ok (c : wcase) : bool :=
   if (c_interval c <=? 0)%Z || (c_slots c <=? 0)%Z then true     (* outside "for every slot count" *)
-  else c_new_ok c && spec_run (Z.to_pos (c_interval c)) sinit false false (c_calls c) (c_obs c).
+  else negb (c_hung c) && c_new_ok c && spec_run (Z.to_pos (c_interval c)) sinit false false (c_calls c) (c_obs c).
 
 
 (* ---- SafeMap histories (the timers index): observed Gets and internal counters ---- *)
